@@ -571,6 +571,28 @@ func (h *vHarness) deliverySequence() {
 
 // ---------------------------------------------------------------- isolation scenarios
 
+// vDrainAll keeps taking whatever is sent on the channels of subscriptions whose handler may be gone, so that a Publish stuck
+// on one of them gets through (recovery at the end of a scenario only).
+func vDrainAll(stop chan struct{}, subs ...*vSub) {
+	for {
+		select {
+		case <-stop:
+			return
+		default:
+		}
+		for _, x := range subs {
+			if x == nil || x.sub == nil || x.stream.ctx.Err() == nil {
+				continue // only subscribers that have disconnected: the others read for themselves
+			}
+			select {
+			case <-x.sub.ch:
+			default:
+			}
+		}
+		time.Sleep(200 * time.Microsecond)
+	}
+}
+
 func vWait(c <-chan struct{}, d time.Duration) bool {
 	select {
 	case <-c:
@@ -737,16 +759,7 @@ func (h *vHarness) stallScenario(cid, variant string, filtered bool) {
 	// recovery, so that no goroutine of this scenario outlives it: let A's client read again / drain A's channel
 	close(a.stream.gate)
 	stop := make(chan struct{})
-	go func() {
-		for {
-			select {
-			case <-stop:
-				return
-			case <-a.sub.ch:
-			case <-time.After(time.Millisecond):
-			}
-		}
-	}()
+	go vDrainAll(stop, a, b, dd, c)
 	if lateBlocked != nil {
 		<-lateBlocked
 	}
@@ -986,16 +999,7 @@ waitB:
 	}
 	// recovery
 	stop := make(chan struct{})
-	go func() {
-		for {
-			select {
-			case <-stop:
-				return
-			case <-a.sub.ch:
-			case <-time.After(time.Millisecond):
-			}
-		}
-	}()
+	go vDrainAll(stop, a)
 	if late != nil {
 		<-late
 	}
